@@ -82,6 +82,30 @@ _BUILTINS: Dict[str, Callable[..., Any]] = {
 }
 
 
+def _apply_mutations(repo, module, name, val, muts):
+    """Module-level statements that keep building a constant after its first binding (NAME.update(...), NAME[k] = v, NAME += ...)."""
+    import copy as _copy
+
+    val = _copy.deepcopy(val)
+    for st in muts:
+        f = Folder(repo, module, {name: val})
+        if isinstance(st, ast.Assign):
+            t = st.targets[0]
+            val[f.fold(t.slice)] = f.fold(st.value)
+        elif isinstance(st, ast.AugAssign):
+            if not isinstance(st.op, ast.Add):
+                raise NotConst(f"module-level {ast.unparse(st)[:40]}")
+            val = val + f.fold(st.value)
+        else:
+            call = st.value
+            meth = call.func.attr
+            args = [f.fold(a) for a in call.args]
+            if call.keywords or not hasattr(val, meth):
+                raise NotConst(f"module-level {ast.unparse(st)[:40]}")
+            getattr(val, meth)(*args)
+    return val
+
+
 def _next(it, *default):
     seq = list(it)
     if seq:
@@ -185,7 +209,11 @@ class Folder:
             raise NotConst(f"unknown name {n.id}")
         self._busy.add(key)
         try:
-            return Folder(self.repo, home_mod).fold(expr)
+            val = Folder(self.repo, home_mod).fold(expr)
+            muts = getattr(mod, "mutations", {}).get(home_name, [])
+            if muts:
+                val = _apply_mutations(self.repo, home_mod, home_name, val, muts)
+            return val
         finally:
             self._busy.discard(key)
 
